@@ -25,7 +25,7 @@
       deployment is deleted or scaled down - `deployment_ips_within_replicas_counter` (DESIGN §7 D12; reproduced on
       the real code by corpus/C03/d12.ops, known finding dp-prefix-ip-never-reevaluated).
 -/
-import Galaxy.Lemmas.C03Unbind
+import Galaxy.Lemmas.C03D12
 
 namespace Galaxy.Props.C03
 open Galaxy Galaxy.Plugin Galaxy.Plugin.C03
@@ -243,12 +243,10 @@ theorem deployment_ips_within_replicas_partial (cr : CRs) (s : State) (k : Key) 
       countPrefix s k.poolPrefix ≤ (Tbl.get s.vApps (Kind.dp, k.ns, k.app)).getD 0 :=
   reservePrefix_within_replicas cr s k hk h
 
-def pool2 : Pool := { nodeSubnets := [⟨168362240, 24⟩], ranges := [(168427522, 168427523)], gateway := 168427521, bits := 24, vlan := 0 }
-def conf2 : Conf := { pools := [pool2], nodes := [("n1", 168362245)], provider := false }
-
-/-- DESIGN §7 D12: an immutable deployment pod is unbound while the deployment exists (its address is re-keyed to the
-    app prefix), then the deployment is deleted; two resync passes follow -/
-def d12 : List Move := [
+/-- the configuration and the history D12 (DESIGN §7): `conf2` = one pool 10.10.0.2-3 routable from 10.9.1.0/24, node n1;
+    `d12` = scale dp d to 1; create pod d-x1 (immutable); sync; filter; bind; delete pod; DELIVER its event (the
+    deployment still exists: the address is re-keyed to `dp_ns1_d_`); delete the deployment; sync; resync; resync -/
+example : D12.d12 = [
   .scale .dp "ns1" "d" 1,
   .createPod "ns1" "d-x1" .dp "d" "" 1 [] true,
   .listerSync true true,
@@ -259,9 +257,7 @@ def d12 : List Move := [
   .deleteApp .dp "ns1" "d",
   .listerSync true true,
   .resync [] 0 0,
-  .resync [] 0 0 ]
-
-def dpPrefixKey : Key := ⟨"", "dp_", "ns1", "d", ""⟩
+  .resync [] 0 0 ] := rfl
 
 set_option maxRecDepth 100000 in
 /-- The deployment clause fails on the model (and on the real code: corpus/C03/d12.ops, known finding
@@ -269,28 +265,26 @@ set_option maxRecDepth 100000 in
     an admissible (empty) checklist - and 10.10.0.2 is still held under `dp_ns1_d_` with stored policy immutable although
     the deployment is gone, i.e. the documented action for it is `release`. -/
 theorem deployment_ips_within_replicas_counter :
-    reloadsClean d12 = true ∧ (run facts (init conf2) d12).events = [] ∧
-    (run facts (init conf2) d12).vPods = (run facts (init conf2) d12).pods ∧
-    (run facts (init conf2) d12).vApps = (run facts (init conf2) d12).apps ∧
-    (Tbl.get (run facts (init conf2) d12).alloc 168427522).map (fun r => (r.key, r.policy)) = some (dpPrefixKey, 1) ∧
-    docAction (dinOf CRs.none (run facts (init conf2) d12) dpPrefixKey 1) = .release := by
+    reloadsClean D12.d12 = true ∧ (run facts (init D12.conf2) D12.d12).events = [] ∧
+    (run facts (init D12.conf2) D12.d12).vPods = (run facts (init D12.conf2) D12.d12).pods ∧
+    (run facts (init D12.conf2) D12.d12).vApps = (run facts (init D12.conf2) D12.d12).apps ∧
+    (Tbl.get (run facts (init D12.conf2) D12.d12).alloc 168427522).map (fun r => (r.key, r.policy)) =
+      some (D12.dpPrefixKey, 1) ∧
+    docAction (dinOf CRs.none (run facts (init D12.conf2) D12.d12) D12.dpPrefixKey 1) = .release := by
+  rw [fact_plugin_guards, D12.run_d12]
   refine ⟨by decide, by decide, by decide, by decide, by decide, by decide⟩
 
 /-! ### non-vacuity -/
 
-/-- the decision table's side conditions are satisfiable in every row kind (a few of the 2·2·2·2·3·… rows) -/
-example : (DIn.WF { isDp := false, isSts := true, pooled := false, numeric := true, scalable := false, policy := 1,
-    appExists := true, replicas := 2, index := some 1, nPrefix := 0, keyIsPrefix := false }) ∧
-  (DIn.WF { isDp := true, isSts := false, pooled := true, numeric := false, scalable := false, policy := 2,
-    appExists := true, replicas := 1, index := none, nPrefix := 3, keyIsPrefix := false }) ∧
-  (DIn.WF { isDp := false, isSts := false, pooled := false, numeric := true, scalable := true, policy := 1,
-    appExists := false, replicas := 0, index := some 0, nPrefix := 0, keyIsPrefix := false }) := by decide
+/-- the decision table's side conditions are satisfiable in every row kind (fields: isDp isSts pooled numeric
+    scalable policy appExists replicas index nPrefix keyIsPrefix) -/
+example : (DIn.WF ⟨false, true, false, true, false, 1, true, 2, some 1, 0, false⟩) ∧
+    (DIn.WF ⟨true, false, true, false, false, 2, true, 1, none, 3, false⟩) ∧
+    (DIn.WF ⟨false, false, false, true, true, 1, false, 0, some 0, 0, false⟩) := by decide
 
 /-- ... and the table is not constant: the same statefulset pod is kept at replicas 2 and released at replicas 1 -/
-example : docAction { isDp := false, isSts := true, pooled := false, numeric := true, scalable := false, policy := 1,
-    appExists := true, replicas := 2, index := some 1, nPrefix := 0, keyIsPrefix := false } = .reserveOwn ∧
-  docAction { isDp := false, isSts := true, pooled := false, numeric := true, scalable := false, policy := 1,
-    appExists := true, replicas := 1, index := some 1, nPrefix := 0, keyIsPrefix := false } = .release := by decide
+example : docAction ⟨false, true, false, true, false, 1, true, 2, some 1, 0, false⟩ = .reserveOwn ∧
+    docAction ⟨false, true, false, true, false, 1, true, 1, some 1, 0, false⟩ = .release := by decide
 
 /-- a history with a LOST delete event of a default-policy statefulset pod: before the resync pass the address is
     assigned to the vanished pod, the hypotheses of `quiescent_no_orphan` hold, and the pass frees it -/
@@ -305,11 +299,11 @@ def lost : List Move := [
   .listerSync true true ]
 
 set_option maxRecDepth 100000 in
-example : reloadsClean lost = true ∧ (run facts (init conf2) lost).vPods = (run facts (init conf2) lost).pods ∧
-    (run facts (init conf2) lost).vApps = (run facts (init conf2) lost).apps ∧
-    (Tbl.get (run facts (init conf2) lost).alloc 168427522).isSome = true ∧
-    (step facts (run facts (init conf2) lost) (.resync [168427522] 0 0)).2.res = .ok ∧
-    Tbl.get (step facts (run facts (init conf2) lost) (.resync [168427522] 0 0)).1.alloc 168427522 = none := by
+example : reloadsClean lost = true ∧ (run facts (init D12.conf2) lost).vPods = (run facts (init D12.conf2) lost).pods ∧
+    (run facts (init D12.conf2) lost).vApps = (run facts (init D12.conf2) lost).apps ∧
+    (Tbl.get (run facts (init D12.conf2) lost).alloc 168427522).isSome = true ∧
+    (step facts (run facts (init D12.conf2) lost) (.resync [168427522] 0 0)).2.res = .ok ∧
+    Tbl.get (step facts (run facts (init D12.conf2) lost) (.resync [168427522] 0 0)).1.alloc 168427522 = none := by
   refine ⟨by decide, by decide, by decide, by decide, by decide, by decide⟩
 
 end Galaxy.Props.C03
